@@ -14,6 +14,9 @@ from common import Result, driver_batch, load_corpus
 import setupm
 
 N = setupm.N
+PRODUCT = setupm.NAMES.index("product")
+ECOMAX_PARAMS = setupm.NAMES.index("ecomax_parameters")
+MIXER_PARAMS = setupm.NAMES.index("mixer_parameters")
 # order of the answers inside one attempt window: ecomax parameters BEFORE product, mixer parameters AFTER
 WINDOW_ORDER = [1, 2, 0, 3, 4, 5, 6, 7]
 
@@ -42,11 +45,13 @@ def mk_case(events_, mixers=True, thermostats=True, label="", pattern=None, mini
                 pattern=list(pattern) if pattern is not None else None, minimal=sorted(minimal))
 
 
-def model_events(c):
-    """what the machine is told: an empty-schema answer is no answer"""
+def model_events(c, ignored=()):
+    """what the machine is told: an empty-schema answer is no answer; a clock advance that would reach the pending
+    deadline is not an event of the machine (the rig did not perform it; the driver rejects it)"""
+    ev = ["w:0" if i in ignored else e for i, e in enumerate(c["events"])]
     if SCHEMA_KIND in c.get("minimal", ()):
-        return ["w:0" if e == f"a:{SCHEMA_KIND}" else e for e in c["events"]]
-    return c["events"]
+        return ["w:0" if e == f"a:{SCHEMA_KIND}" else e for e in ev]
+    return ev
 
 
 def rand_versions(rng):
@@ -163,7 +168,7 @@ def impl_string(groups, summ):
 
 
 def check(res, results):
-    model = driver_batch(f"c16 {int(c['mixers'])} " + " ".join(model_events(c)) for c, *_ in results)
+    model = driver_batch(f"c16 {int(c['mixers'])} " + " ".join(model_events(c, set(summ.get("ignored", ())))) for c, _, summ, *_ in results)
     jl, jidx = [], []
     for i, (c, groups, summ, t0, answers, timers_after) in enumerate(results):
         if t0 is None:
@@ -204,7 +209,19 @@ def check(res, results):
             bad.append(f"async_setup raised {summ['task_exc']}")
         if summ["loaded_at"] is not None and not summ["task_done"]:
             bad.append("'loaded' dispatched but async_setup has not returned")
-        if verdict.get(i, "pass") != "pass":
+        v = verdict.get(i, "pass")
+        if v.startswith("full-only"):
+            # only the clause "the data of every answered request is available", read without proviso, fails.  Open finding
+            # F11 at INPUT level: product information unanswered on every attempt AND ecoMAX parameters (or mixer parameters
+            # listing a mixer) answered -- judged on the harness's own record of what it answered when
+            deadline = t0 + 9000
+            ans = lambda k: answers[k] is not None and answers[k] < deadline   # noqa: E731
+            f10 = (not ans(PRODUCT)) and (ans(ECOMAX_PARAMS) or (c["mixers"] and ans(MIXER_PARAMS)))
+            res.count("literal data clause fails:" + ("F11 input (product unanswered, dependent parameters answered)" if f10 else "other input"))
+            res.fail("spec", inp, "the data of every answered request is available (C16.specFull)", impl,
+                     "the data of an answered request is not available: its handler waits for product information that was never answered",
+                     **(dict(finding="F11") if f10 and v.endswith("F11-input") else {}))
+        elif v != "pass":
             bad.append("C16.spec violated by the implementation's observation")
         for b in bad:
             res.fail("spec", inp, m, impl, b)
